@@ -21,20 +21,12 @@ EntityTranslation rsOperationFacet::MergeWith(const RSForm& schema2) {
     insertionOrder.emplace_back(entity);
   }
 
-  StrSubstitutes contextReplace{};
+  // Note: constituents are copied as a group so that every mention, including a mention
+  // of a constituent in its own texts, is translated exactly once
+  const auto insertedIDs = core.InsertCopy(insertionOrder, schema2.Core());
   EntityTranslation equateParams{};
-  SetOfEntities inserted{};
-  for (const auto entity : insertionOrder) {
-    const auto& etalon = schema2.GetRS(entity);
-    const auto& newCst = core.GetRS(core.InsertCopy(entity, schema2.Core()));
-    contextReplace.insert({ etalon.alias, newCst.alias });
-    inserted.insert(newCst.uid);
-    equateParams.Insert(entity, newCst.uid);
-  }
-
-  const auto mapping = CreateTranslator(contextReplace);
-  for (const auto entity : inserted) {
-    core.core.Translate(entity, mapping);
+  for (auto i = 0U; i < size(insertionOrder); ++i) {
+    equateParams.Insert(insertionOrder.at(i), insertedIDs.at(i));
   }
   core.NotifyModification();
   return equateParams;
